@@ -278,6 +278,8 @@ var reg = vk.Registry{
 	},
 }
 
+func init() { reg["sequence"] = vk.SequenceReplayer(reg) }
+
 func TestReplay(t *testing.T) { vk.RunReplay(t, reg) }
 
 // TestScalarsExhaustive: every Unicode scalar value x six codecs x short contexts.
@@ -392,7 +394,15 @@ func TestStringsRandom(t *testing.T) {
 			rec.Class("random_refused:" + codecNames[k])
 		}
 		rec.Sample("coding-"+codecNames[k], map[string]any{"codec": codecNames[k], "text": s})
-		rec.Report(t, "coding", v)
+		first := true
+		rec.ReportSeq(t, "coding", c, func() *vk.Violation {
+			if first {
+				first = false
+				return v
+			}
+			v2, _ := check(c)
+			return v2
+		})
 	})
 }
 
@@ -412,7 +422,7 @@ func TestProtocolLevel(t *testing.T) {
 		rec.NonTrivial(proto, coding, s)
 		rec.Class(fmt.Sprintf("proto:%s", proto))
 		rec.Sample("proto", map[string]any{"proto": proto, "coding": coding, "text": s})
-		rec.Report(t, "proto", checkProto(c))
+		rec.ReportSeq(t, "proto", c, func() *vk.Violation { return checkProto(c) })
 	})
 	// every coding number once with a fixed text (exhaustive over the numbers)
 	if rec.Env().Shard == 0 {
@@ -436,6 +446,7 @@ func TestUcs2Helpers(t *testing.T) {
 			rec.NonTrivial("helpers", s)
 		}
 		rec.Class("ucs2_helpers")
-		rec.Report(t, "helpers", checkHelpers(HelperCase{vk.Hex([]byte(s))}))
+		hc := HelperCase{vk.Hex([]byte(s))}
+		rec.ReportSeq(t, "helpers", hc, func() *vk.Violation { return checkHelpers(hc) })
 	})
 }
